@@ -83,7 +83,14 @@ META['rule'] += ('; fragments: records of tasks sharing a source made to diverge
                  'function, uptodate callables returning non-bool values (0, "", [], 1, "x", [0]), the EMPTY file with '
                  'touch / rewrite; scenario families config_changed(dict) (same object over several runs of one process; '
                  'object shared by two tasks over a dict a third task fills at run time) and dict results (tuple / int keys '
-                 '/ nested tuple / plain / string) of an always-executed source feeding result_dep and getargs consumers')
+                 '/ nested tuple / plain / string) of an always-executed source feeding result_dep and getargs consumers; '
+                 'wave 4 (opt-in case keys, modelled, K applies): pathform (file_dep / targets as pathlib objects, mixed str/Path '
+                 'spellings of one file), subsec (sub-second mtimes), links (sources are symbolic links to the real file), '
+                 'uptodate items written as (fn,), (fn, args), (fn, args, kwargs), magic + positional args, fn(task), fn(), '
+                 'partial, bound method, extra defaults, and a user-written UptodateCalculator (= result_dep); monitors-only '
+                 'scenario families counted as scenario(monitors-only):* : oddfiles (directory as file_dep / target, dangling '
+                 'link as file_dep / target, mtime 0 with checker switch, equal mtimes) and utdtime (tools.timeout int / '
+                 'timedelta / 0, check_timestamp_unchanged eq / ge / watched mtime 0, config_changed(dict, encoder=))')
 META['level_note'] += ('  The ghost `saw` of an execution is the file system AFTER the action ran (what save_success '
                        'reads), so an action that rewrites its own file_dep is judged against the content it left.  '
                        'An exact restore of an older (content, mtime) pair is not in the model\'s alphabet (edits always '
